@@ -180,7 +180,7 @@ func vExpire(c *Cache[byte], model []vEnt) ([]vEnt, bool) {
 	return keep, true
 }
 
-//verif: unwind=24 cover=evicted,deleted,expired bounds="locus 0..1 bytes, max 0..3, minPerBucket 0..2 (constructor precondition assumed), 3 (quick) / 4 (thorough) operations from put/delete/expire with 1-byte keys, 3-bit instants" map_perm_max=1
+// verif: unwind=24 cover=evicted,deleted,expired bounds="locus 0..1 bytes, max 0..3, minPerBucket 0..2 (constructor precondition assumed), 3 (quick) / 4 (thorough) operations from put/delete/expire with 1-byte keys, 3-bit instants" map_perm_max=1
 func VH_C18_cacheOps() bool {
 	locus := vBytes(1)
 	max := vInt(0, 3)
@@ -209,7 +209,7 @@ func VH_C18_cacheOps() bool {
 	return true
 }
 
-//verif: unwind=24 cover=evicted bounds="locus 1 symbolic byte, max 8, minPerBucket 1, cache pre-filled with one entry per bucket 0..7, then 2 symbolic puts" map_perm_max=1
+// verif: unwind=24 cover=evicted bounds="locus 1 symbolic byte, max 8, minPerBucket 1, cache pre-filled with one entry per bucket 0..7, then 2 symbolic puts" map_perm_max=1
 func VH_C18_cacheFullBuckets() bool {
 	l := vByte()
 	locus := []byte{l}
